@@ -6,7 +6,7 @@ randomised outputs are checked by replaying the documented sampler on a clone of
 with a 6-sigma moment test as the arbiter when the replay disagrees (a change of draw order alone is not
 a violation of the property).
 
-As built: Workload extras: 1-19 arms, n_jobs in {1,2,3,-1} (threads), reward magnitudes 2^-40..2^40 and near-equal values (one class per history), arm changes before the first fit; in 1/27 of the cases one batch of 2^20 + k rows laid out arm by arm; 1/12 of the later training calls carry an empty batch.
+As built: Workload extras: 1-19 arms, n_jobs in {1,2,3,-1} (threads), reward magnitudes 2^-40..2^40 and near-equal values (one class per history), arm changes before the first fit; in 1/27 of the cases one batch of 2^20 + k rows laid out arm by arm; 1/12 of the later training calls carry an empty batch. Bandits may be constructed with an empty arm list (every arm arrives through add_arm); reward classes of magnitude 2^70.
 """
 from mon import env  # noqa: F401
 import copy
